@@ -223,11 +223,11 @@ func (c *SyncMap) Restore(r io.Reader) (int, error) {
 			return n, err
 		}
 
-		c.data.Store(string(e.K), &e)
-
 		if e.E != 0 {
 			atomic.AddInt64(&c.t.expirationsSet, 1)
 		}
+
+		c.data.Store(string(e.K), &e)
 
 		n++
 	}
